@@ -90,11 +90,18 @@ func (k *Checker) onReady(n *Node, rd *raft.Ready) {
 		first := committed[0].GetIndex()
 		if first != x.nextApply {
 			k.report("C08", "ap.cursor", n, fmt.Sprintf("apply batch starts at %d, expected %d", first, x.nextApply), "ap.cursor.start")
+			if first > x.nextApply {
+				// C01: a committed entry was dropped from this node's committed sequence
+				k.report("C01", "sm.sequence", n, fmt.Sprintf("committed entries %d..%d were never handed to this node: batch starts at %d", x.nextApply, first-1, first), "sm.sequence.skip")
+			} else {
+				k.report("C01", "sm.sequence", n, fmt.Sprintf("committed sequence handed to this node goes back from %d to %d", x.nextApply-1, first), "sm.sequence.back")
+			}
 			return
 		}
 		for i, e := range committed {
 			if e.GetIndex() != first+uint64(i) {
 				k.report("C08", "ap.cursor", n, fmt.Sprintf("apply batch not contiguous at position %d: index %d", i, e.GetIndex()), "ap.cursor.gap")
+				k.report("C01", "sm.sequence", n, fmt.Sprintf("committed sequence handed to this node is not contiguous: index %d at position %d of a batch starting at %d", e.GetIndex(), i, first), "sm.sequence.gap")
 				return
 			}
 			if e.GetIndex() > st.Committed {
